@@ -66,7 +66,7 @@ fn main() {
     for case in read_ndjson(&arg_req("--in")) {
         let wi = case["w"].as_u64().unwrap() as usize - 1;
         let tours: Vec<Value> = case["tours"].as_array().unwrap().clone();
-        for goal_kind in ["A", "B"] {
+        for goal_kind in ["A", "B", "C", "D"] {
             let mut spec = worlds[wi].clone();
             spec["vehicles"] = json!(tours.len() + 1);
             let r = catch(|| {
